@@ -10,7 +10,9 @@ checks = sys.argv[2:] or [meta['property']]
 wt = '/tmp/reseed_%s' % sid
 subprocess.run('git -C /repo worktree remove --force %s 2>/dev/null; git -C /repo worktree add -q %s HEAD' % (wt, wt), shell=True)
 try:
-    p = subprocess.run('git apply %s/patch.diff' % d, shell=True, cwd=wt, capture_output=True, text=True)
+    # patch_head.diff: the same change re-based by hand where a later fix: commit touched the same lines
+    pf = d + '/patch_head.diff' if os.path.exists(d + '/patch_head.diff') else d + '/patch.diff'
+    p = subprocess.run('git apply %s' % pf, shell=True, cwd=wt, capture_output=True, text=True)
     if p.returncode:
         print('patch does not apply to HEAD:', p.stderr[:300]); sys.exit(2)
     for c in checks:
